@@ -45,6 +45,16 @@ def rnum(rng, lo=-6, hi=6):
     return max(round(x, rng.randint(max(0, -e + 1), 14)), 10.0**e)
 
 
+def nearf(rng, v):
+    """a supplied value (nearly) equal to the computed one: exact, rounded to the cent, off by less than half a cent, off by cents"""
+    k = rng.random()
+    if k < 0.25: w = v
+    elif k < 0.55: w = round(v, 2)
+    elif k < 0.8: w = v + rng.choice([-1, 1]) * rng.uniform(0.0001, 0.0049)
+    else: w = v + rng.choice([-1, 1]) * rng.uniform(0.01, 0.05)
+    return w if w > 1e-9 else max(v, 1e-6)
+
+
 def layout(rng, fields, table, want=()):
     use = [f for f in fields if f in MAND[table] or f in want or rng.random() < 0.6]
     width = len(use) + rng.randint(0, 4)
@@ -83,13 +93,13 @@ def gen(rng, prop=None):
                  spot_price=rnum(rng), crypto_in=rnum(rng))
         k = rng.random()
         if k < 0.3:
-            r['fiat_fee'] = rnum(rng, -2, 2)
+            r['fiat_fee'] = rnum(rng, -2, 2) if rng.random() < 0.85 else 0.0       # an explicit 0 is a value, not an empty cell
         elif k < 0.6:
-            r['crypto_fee'] = rnum(rng, -4, -1)
+            r['crypto_fee'] = rnum(rng, -4, -1) if rng.random() < 0.9 else 0.0
         if rng.random() < 0.3:
-            r['fiat_in_no_fee'] = rnum(rng)
+            r['fiat_in_no_fee'] = rnum(rng) if rng.random() < 0.6 else nearf(rng, r['crypto_in'] * r['spot_price'])
         if rng.random() < 0.3:
-            r['fiat_in_with_fee'] = rnum(rng)
+            r['fiat_in_with_fee'] = rnum(rng) if rng.random() < 0.6 else nearf(rng, r['crypto_in'] * r['spot_price'] + r.get('fiat_fee', 0.0))
         if rng.random() < 0.5:
             r['unique_id'] = uid(i)
         if rng.random() < 0.5:
@@ -102,9 +112,10 @@ def gen(rng, prop=None):
         if rng.random() < 0.3:
             r['crypto_out_with_fee'] = r['crypto_out_no_fee'] + r['crypto_fee']
         if rng.random() < 0.3 and typ != 'FEE':
-            r['fiat_out_no_fee'] = rnum(rng)
-        if rng.random() < 0.3:
-            r['fiat_fee'] = rnum(rng, -2, 2)
+            r['fiat_out_no_fee'] = rnum(rng) if rng.random() < 0.6 else nearf(rng, r['crypto_out_no_fee'] * r['spot_price'])
+        if rng.random() < 0.35:
+            # supplied fee value: any, (nearly) the computed one, or an explicit 0 (e.g. a dust fee the exchange rounds to 0.00)
+            r['fiat_fee'] = rng.choice([rnum(rng, -2, 2), rnum(rng, -2, 2), nearf(rng, r['crypto_fee'] * r['spot_price']), 0.0])
         if rng.random() < 0.4:
             r['unique_id'] = uid(i)
         if rng.random() < 0.4:
